@@ -242,13 +242,16 @@ def player_rule(F, rep, spec):
     # team <=> is_teams (parameter 2)
     team_ok = False
     for x in tir.walk(root):
-        if x.get("k") == "Match" and L.local_name(x["scrut"]) == pnames[2]:
-            res = {}
-            for a in x["arms"]:
-                key = a["pat"]["e"].get("v") if a["pat"].get("k") == "Lit" else "_"
-                body = L.strip_try(a["body"])
-                res[key] = "some-team" if (declared(body) or "").endswith("Some") and any(y.get("k") == "Struct" and (y.get("path") or "") == "game::Team" for y in tir.walk(body)) else ("none" if (body.get("path") or "").endswith("None") else "?")
-            team_ok = res.get(True) == "some-team" and (res.get(False) == "none" or res.get("_") == "none")
+        bb = tir.bool_branch(x) if x.get("k") in ("Match", "If") else None
+        if bb is not None and bb[2] is not None and L.local_name(bb[0]) == pnames[2]:
+            def cls(body):
+                body = L.strip_try(body)
+                if (declared(body) or "").endswith("Some") and any(y.get("k") == "Struct" and (y.get("path") or "") == "game::Team" for y in tir.walk(body)):
+                    return "some-team"
+                return "none" if (body.get("path") or "").endswith("None") else "?"
+            team_ok = cls(bb[1]) == "some-team" and cls(bb[2]) == "none"
+        elif x.get("k") == "MethodCall" and x["method"] in ("then", "then_some") and L.local_name(x["recv"]) == pnames[2] and any(y.get("k") == "Struct" and (y.get("path") or "") == "game::Team" for y in tir.walk(x)):
+            team_ok = True
     rep.ob("player.team", team_ok, PL, "team", "team must be Some(Team{color, shade}) exactly when is_teams")
     # cpu_level <=> type == Cpu
     cpu_ok = False
@@ -285,9 +288,11 @@ def player_rule(F, rep, spec):
     whole = {}
     for x in tir.walk(root):
         if x.get("k") == "Call" and (declared(x) or "").endswith("TryFrom::try_from") and "MeleeString" in (x.get("ty") or ""):
-            a = strip(x["args"][0])
+            a = strip(x["args"][0])      # `&x[..]`, `x.as_slice()`, `&x`: the whole array
             if a.get("k") == "MethodCall" and a["method"] == "as_slice":
-                whole[(strip(a["recv"]).get("ty") or "")] = True
+                a = strip(a["recv"])
+            if a.get("k") == "Path" and a.get("res") == "local":
+                whole[(a.get("ty") or "").lstrip("&")] = True
     rep.ob("player.names", all(t in whole for t in ("[u8; 16]", "[u8; 31]", "[u8; 10]")), PL, "names", "name tag / netplay name / code must be decoded from their whole 16/31/10-byte per-port arrays")
 
 
@@ -317,6 +322,35 @@ def strings_rule(F, rep):
             fn, ln, base, ln - 1), sample={"fn": fn, "field": base, "max_len": ln - 1})
 
 
+def placements_ok(b):
+    """(0..NUM_PORTS).filter_map(|n| player_end(Port::try_from(n as u8).unwrap(), placements[n]).transpose())"""
+    for fm in tir.walk(b["tir"]["value"]):
+        if fm.get("k") == "MethodCall" and fm["method"] == "filter_map" and len(fm["args"]) == 1:
+            rg = strip(fm["recv"])
+            cl = strip(fm["args"][0])
+            if not (rg.get("k") == "Struct" and (rg.get("path") or "").endswith("ops::Range") and cl.get("k") == "Closure" and len(cl["params"]) == 1):
+                continue
+            f = {x["name"]: strip(x["e"]) for x in rg["fields"]}
+            if tir.lit_int(f.get("start") or {}) != 0 or not (f.get("end", {}).get("path") or "").endswith("NUM_PORTS"):
+                continue
+            nid = cl["params"][0].get("id")
+            body = L.strip_try(cl["body"])
+            if not (body.get("k") == "MethodCall" and body["method"] == "transpose"):
+                continue
+            pe = strip(body["recv"])
+            if not (pe.get("k") == "Call" and (declared(pe) or "") == "io::slippi::de::player_end" and len(pe["args"]) == 2):
+                continue
+            a0, a1 = pe["args"]
+            port_from_n = any(x.get("k") == "Call" and (declared(x) or "").endswith("TryFrom::try_from") and any(y.get("k") == "Path" and y.get("id") == nid for y in tir.walk(x)) for x in tir.walk(a0)) and "Port" in (a0.get("ty") or "")
+            ix = strip(a1)
+            idx = strip(ix.get("index") or {})
+            if idx.get("k") == "Cast":
+                idx = strip(idx["e"])
+            plc = ix.get("k") == "Index" and (tir.place(ix["base"]) or "").endswith("placements") and idx.get("id") == nid
+            return bool(port_from_n and plc)
+    return False
+
+
 def end_rule(F, rep, spec):
     try:
         segs = cursor.Prog(F, GE).run(1)
@@ -328,7 +362,7 @@ def end_rule(F, rep, spec):
     txt = tir.pretty(b["tir"]["value"])
     rep.ob("end.method", "let method = std::convert::TryFrom::try_from(r.read_u8()?).map_err(io::slippi::de::invalid_data)?" in txt, GE, "method", "method must be EndMethod::try_from(byte 0)")
     rep.ob("end.lras", "match r.read_u8()? {255 => std::prelude::v1::None; x => std::prelude::v1::Some(std::convert::TryFrom::try_from(x).map_err(io::slippi::de::invalid_data)?)}" in txt, GE, "lras", "LRAS initiator: 255 means none, otherwise Port::try_from")
-    rep.ob("end.placements", "io::slippi::de::player_end(std::convert::TryFrom::try_from((n as u8)).unwrap(), placements[(n as usize)]).transpose()" in txt and "std::ops::Range {start: 0, end: game::NUM_PORTS}.filter_map(" in txt, GE, "placements",
+    rep.ob("end.placements", placements_ok(b), GE, "placements",
            "placements must pair index n with port n for n in 0..NUM_PORTS")
     pe = tir.pretty(F.body("io::slippi::de::player_end")["tir"]["value"])
     rep.ob("end.player_end", "-1 => std::prelude::v1::Ok(std::prelude::v1::None)" in pe and "0..=3 => std::prelude::v1::Ok(std::prelude::v1::Some(game::PlayerEnd {port: port, placement: (placement as u8)}))" in pe, "io::slippi::de::player_end", "table",
